@@ -558,14 +558,18 @@ STATE_HELPERS = {'sin_of': _h_sin, 'cos_of': _h_cos, 'raw64': _h_raw64, 'rawmem'
 def fn_resolver(exe, fn_name):
     """names = parameters and locals of the function (read from the state's cells)."""
     fn = exe.tu.functions[fn_name]
-    decls = {}
-    by_id = {}
-    for pd in fn_params(fn):
-        decls.setdefault(pd.get('name'), pd)
-    for c in walk(fn_body(fn)):
-        if c['kind'] == 'VarDecl' and c.get('name'):
-            decls.setdefault(c['name'], c)
-            by_id[c['id']] = c
+    cache = exe.__dict__.setdefault('_resolver_tables', {})
+    if fn_name not in cache:
+        decls = {}
+        by_id = {}
+        for pd in fn_params(fn):
+            decls.setdefault(pd.get('name'), pd)
+        for c in walk(fn_body(fn)):
+            if c['kind'] == 'VarDecl' and c.get('name'):
+                decls.setdefault(c['name'], c)
+                by_id[c['id']] = c
+        cache[fn_name] = (decls, by_id)
+    decls, by_id = cache[fn_name]
 
     def resolve(name, st):
         d = decls.get(name)
